@@ -26,6 +26,9 @@ pub enum BoundsCase {
     SelfPlay { fen: String },
     /// sane position with many promoted pieces searched to depth 3-4
     Promoted { construct: Construct, depth: u8 },
+    /// any board the FEN reader accepts: all twelve piece kinds anywhere (pawns on the first and eighth
+    /// rank included), any castling-rights bits, any en-passant file, with or without a pawn to match
+    Wild { men: Vec<(u8, u8)>, wk: u8, bk: u8, white: bool, cr: u8, ep: u8, via_uci: bool },
     /// literal UCI lines for the checked binary, then `run_ms` of waiting, `isready`, `stop`, `quit`
     Script { lines: Vec<String>, run_ms: u16 },
 }
@@ -374,7 +377,7 @@ impl Prop for C15 {
     }
 
     fn rule(&self) -> String {
-        "All cases run on a CHECKED build of the same sources (release optimisation, debug assertions on, overflow checks off) of both the in-process harness and the binary, so a violated unsafe precondition, an arrayvec capacity assertion, a Position assertion or an index error is a panic/abort instead of silent corruption. Cases: (a) high-mobility boards: generated heavy pieces of both colours, then up to 300 greedy steps that raise the MODEL's pseudo-legal move count (the engine runs only on the result): import, both move lists, FEN/display, depth-2 search, and for counts >= 230 the same through the checked binary; (b) games of 300-398 quiet plies from small positions, followed by a depth-4 and an unlimited search in-process or `go depth 3` + `go infinite` through the checked binary, where a 399th ply must be refused by `position`; (c) self-play `rustybait auto 2` from drawn endings (hook: VERIF_AUTO_FEN) until the process ends by itself; (d) sane constructed positions with promoted pieces searched to depth 3-4. A shard that aborts is the violation (in-flight case = replay). evaluations = exercised positions / games / runs. Non-trivial: model move count >= 200, or game length >= 380, or self-play that reached the length guard; distinct by position / game.".into()
+        "All cases run on a CHECKED build of the same sources (release optimisation, debug assertions on, overflow checks off) of both the in-process harness and the binary, so a violated unsafe precondition, an arrayvec capacity assertion, a Position assertion or an index error is a panic/abort instead of silent corruption. Cases: (a) high-mobility boards: generated heavy pieces of both colours, then up to 300 greedy steps that raise the MODEL's pseudo-legal move count (the engine runs only on the result): import, both move lists, FEN/display, depth-2 search, and for counts >= 230 the same through the checked binary; (b) games of 300-398 quiet plies from small positions, followed by a depth-4 and an unlimited search in-process or `go depth 3` + `go infinite` through the checked binary, where a 399th ply must be refused by `position`; (c) self-play `rustybait auto 2` from drawn endings (hook: VERIF_AUTO_FEN) until the process ends by itself; (d) sane constructed positions with promoted pieces searched to depth 3-4; (e) 'wild' boards: anything the FEN reader accepts - all piece kinds anywhere including pawns on the first and eighth rank, arbitrary castling-rights bits and en-passant file - imported, listed, displayed and searched to depth 2. A shard that aborts is the violation (in-flight case = replay). evaluations = exercised positions / games / runs. Non-trivial: model move count >= 200, or game length >= 380, or self-play that reached the length guard, or a wild board with pawns on rank 1/8 or rights without their rook; distinct by position / game.".into()
     }
 
     fn assumptions(&self) -> Vec<String> {
@@ -407,6 +410,8 @@ impl Prop for C15 {
             2 => (0u8..6, prop_oneof![1 => 300u16..380, 4 => 380u16..399], vec(any::<u16>(), 1..40), prop::bool::weighted(0.3), 200u16..1500)
                 .prop_map(|(root, plies, picks, via_uci, infinite_ms)| BoundsCase::LongGame { root, plies, picks, via_uci, infinite_ms }),
             6 => (construct_strategy(), 3u8..5).prop_map(|(construct, depth)| BoundsCase::Promoted { construct, depth }),
+            8 => (vec((any::<u8>(), 0u8..64), 0..24), 0u8..64, 0u8..64, any::<bool>(), 0u8..16, 0u8..12, prop::bool::weighted(0.1))
+                .prop_map(|(men, wk, bk, white, cr, ep, via_uci)| BoundsCase::Wild { men, wk, bk, white, cr, ep, via_uci }),
         ]
         .boxed()
     }
@@ -417,6 +422,33 @@ impl Prop for C15 {
             BoundsCase::Fen { fen, via_uci } => self.exercise_position(fen, *via_uci, ev).map(|_| ()),
             BoundsCase::LongGame { root, plies, picks, via_uci, infinite_ms } => self.long_game(*root, *plies, picks, *via_uci, *infinite_ms, ev),
             BoundsCase::SelfPlay { fen } => self.self_play(fen, ev),
+            BoundsCase::Wild { men, wk, bk, white, cr, ep, via_uci } => {
+                let mut b = [b'.'; 64];
+                b[(*wk % 64) as usize] = b'K';
+                if b[(*bk % 64) as usize] != b'.' {
+                    ev.skip("kings on one square");
+                    return Ok(());
+                }
+                b[(*bk % 64) as usize] = b'k';
+                for &(pi, sq) in men {
+                    let s = (sq % 64) as usize;
+                    if b[s] == b'.' {
+                        b[s] = b"PpPpNnBbRrQqPp"[pi as usize % 14];
+                    }
+                }
+                let p = Pos { b, white: *white, cr: [cr & 1 != 0, cr & 2 != 0, cr & 4 != 0, cr & 8 != 0], ep: if *ep < 8 { Some(*ep) } else { None } };
+                let fen = p.fen6();
+                let edge_pawns = (0..8).filter(|f| b[*f].to_ascii_lowercase() == b'p' || b[56 + f].to_ascii_lowercase() == b'p').count();
+                ev.class("wild_boards");
+                if edge_pawns > 0 {
+                    ev.class("wild_boards_with_pawns_on_first_or_eighth_rank");
+                }
+                self.exercise_position_depth(&fen, *via_uci, 2, ev).map_err(|f| f.with_case(serde_json::to_value(BoundsCase::Fen { fen: fen.clone(), via_uci: *via_uci }).unwrap()))?;
+                if edge_pawns > 0 || (p.cr.iter().any(|&x| x) && !p.sane()) {
+                    ev.nontrivial(fp_pos(&p), || json!({"position": fen, "pawns_on_first_or_eighth_rank": edge_pawns}));
+                }
+                Ok(())
+            }
             BoundsCase::Script { lines, run_ms } => {
                 let mut s = Session::start_bin(uci::ENGINE_CHECKED, &[], &[]).map_err(|e| Fail::new("harness", e))?;
                 ev.eval();
